@@ -45,15 +45,15 @@ def pick_leaky_world(rng):
     if rng.random() < 0.25:
         return {"corpus": [rng.choice(["TestMathFont-Regular.ufo", "ColorTest.ufo", "DottedCircleTest.ufo"])]}
     force = rng.sample(gen07.LEAKY, rng.randint(1, 2))
-    if rng.random() < 0.6:
-        force.append("marks")
+    if "dottedcircle" in force or rng.random() < 0.6:
+        force.append("marks")  # the dotted-circle filter only acts when marks attach
     return world.gen_family(rng, force=force, max_glyphs=12)
 
 
 def gen_case(seed, profile=None):
     profile = profile or {}
     rng = random.Random(seed)
-    history_free = rng.random() < profile.get("p_history_free", 0.15)
+    history_free = rng.random() < profile.get("p_history_free", 0.22)
     if history_free:
         spec = pick_leaky_world(rng)
     else:
